@@ -42,6 +42,10 @@ func c07BaseItem(r *rand.Rand, bystanders int) val.Item {
 		"zfalse": val.Bool(false),
 		"zempty": val.Str(""),
 		"zm":     val.Map(map[string]val.V{"nul": val.Null(), "f": val.Bool(false)}),
+		// unrelated top-level scalars named like the first step of a "path reading" of the dotted names the
+		// #placeholders stand for (a.b, app.version): they have nothing to do with the MEMBER "a.b" of a map
+		"a":   val.Num("7"),
+		"app": val.Str("scalar"),
 		// numbers and sets below the top level (targets of ADD / DELETE with a document path)
 		"zn": val.Map(map[string]val.V{"cnt": val.Num("3"), "tags": val.SS("a", "b", "c"), "nums": val.NS("1", "2"), "li": val.List(val.Num("1"), val.SS("x", "y"))}),
 		// bystanders no action ever names: values a float64 round trip would change
@@ -834,6 +838,10 @@ func c07AliasQuirk(cs c07Case, base val.Item, got string, after val.Item) bool {
 				if v, ok := refmodel.P(strings.Split(n, ".")...).Resolve(base); ok {
 					alt[n] = v
 					injected = append(injected, inj{"", n})
+				} else if first, ok := base[strings.Split(n, ".")[0]]; ok && first.K != val.KM && first.K != val.KL && got == "reject" && val.ItemsEqual(after, base) {
+					// the path reading steps into a scalar and the library fails the request: the same listed
+					// reading of the dotted name, with another symptom
+					return true
 				}
 			}
 		}
